@@ -557,7 +557,8 @@ def _to_shape_list(region_list, coordinate_system='fk5'):
         meta.update(region.visual)
 
         if reg_type == 'text':
-            meta['text'] = meta.get('text', meta.pop('label', ''))
+            meta.pop('label', None)
+            meta['text'] = region.text
 
         include = region.meta.get('include', True)
 
